@@ -191,6 +191,11 @@ impl<'a, 'b> G<'a, 'b> {
                         self.body(out, nest + 1, nlocals, in_kernel, &ind2);
                         out.push_str(&format!("{ind}end\n"));
                     }
+                    _ if nest == 0 && self.ch.chance(1, 12) => {
+                        // counts around the widths an encoder might use for them, on a tiny body
+                        let cnt = [255u32, 256, 65535, 65536, 65537, 70001][self.ch.pick(6)];
+                        out.push_str(&format!("{ind}repeat.{cnt}\n{ind2}push.1 drop\n{ind}end\n"));
+                    }
                     _ => {
                         let cnt = if self.ch.chance(1, 4) && !self.consts.is_empty() && self.consts[0].1 > 0 && self.consts[0].1 < 20 {
                             self.consts[0].0.clone()
